@@ -24,7 +24,7 @@ RULE = ("one run = one drawn device state (7 hashes, difficulty, 3 flag bytes, c
         "uiHeartbeat mode walk with drawn boot delays / post-exit modes / link-death kinds; "
         "non-trivial = all query kinds answered; distinct = tuple (difficulty length class, "
         "flag bytes, network, DER shapes, walk class, initial mode)")
-TIERS = {"quick": {"runs": 100000, "wall": 240}, "thorough": {"runs": 2000000, "wall": 3000}}
+TIERS = {"quick": {"runs": 60000, "wall": 240}, "thorough": {"runs": 2000000, "wall": 3000}}
 COMPONENTS = {
     "real": ["comm.server._RequestHandler", "comm.protocol", "ledger.protocol",
              "ledger.hsm2dongle", "ledger.parameters", "ledger.signature",
@@ -68,8 +68,7 @@ def as_uint(v):
     return None
 
 
-def run_one(ch, cfg):
-    seed = ch.bytes(6, "devseed")
+def draw_state(ch, seed):
     state = {}
     for sel, name in L.STATE_SELECTORS.items():
         state[name] = hashlib.sha256(seed + bytes([sel])).digest()
@@ -107,6 +106,18 @@ def run_one(ch, cfg):
                "app_hash": hashlib.sha256(b"uihash" + seed).digest(),
                "pubkey": b"\x04" + hashlib.sha512(b"uipk" + seed).digest()},
     }
+    return {"state": state, "diff": diff, "dclass": dclass, "flags": flags, "net": net, "mind": mind,
+            "params": params, "hb": hb, "sr": sr, "ss": ss, "ur": ur, "us": us, "sshape": sshape,
+            "ushape": ushape}
+
+
+def run_one(ch, cfg):
+    seed = ch.bytes(6, "devseed")
+    S = draw_state(ch, seed)
+    state, diff, dclass, flags, net, mind = (S["state"], S["diff"], S["dclass"], S["flags"], S["net"],
+                                             S["mind"])
+    params, hb, sr, ss, ur, us, sshape, ushape = (S["params"], S["hb"], S["sr"], S["ss"], S["ur"],
+                                                  S["us"], S["sshape"], S["ushape"])
     # ---- uiHeartbeat walk policy
     walk = ch.weighted([(6, "benign"), (1, "slow-boot-1"), (1, "wrong-mode-1"), (1, "slow-boot-2"),
                         (1, "wrong-mode-2"), (1, "timeout-death-1"), (1, "timeout-death-2"),
@@ -139,66 +150,96 @@ def run_one(ch, cfg):
     def bad(sig, detail):
         viol.append((sig, detail))
 
-    # ---- getPubKey
-    for p in ch.shuffle(PATHS, "paths"):
-        rep, exc = w.request({"command": "getPubKey", "keyId": p, "version": 5})
-        want = dev.pubkey_for(path_bytes(p)[1:] if False else path_bytes(p)).hex()
-        if exc is not None or not isinstance(rep, dict) or rep.get("errorcode") != 0:
-            bad("pubkey/failed", "%s -> %r %r" % (p, rep, exc))
-        elif rep.get("pubKey") != want:
-            bad("pubkey/value", "%s -> %s, device holds %s" % (p, rep.get("pubKey"), want))
+    def query_round(S):
+        nonlocal answered
+        state, diff, flags, net, mind = S["state"], S["diff"], S["flags"], S["net"], S["mind"]
+        params, hb, sr, ss = S["params"], S["hb"], S["sr"], S["ss"]
+        # ---- getPubKey
+        for p in ch.shuffle(PATHS, "paths"):
+            rep, exc = w.request({"command": "getPubKey", "keyId": p, "version": 5})
+            want = dev.pubkey_for(path_bytes(p)[1:] if False else path_bytes(p)).hex()
+            if exc is not None or not isinstance(rep, dict) or rep.get("errorcode") != 0:
+                bad("pubkey/failed", "%s -> %r %r" % (p, rep, exc))
+            elif rep.get("pubKey") != want:
+                bad("pubkey/value", "%s -> %s, device holds %s" % (p, rep.get("pubKey"), want))
+            else:
+                answered += 1
+        # ---- blockchainState
+        rep, exc = w.request({"command": "blockchainState", "version": 5})
+        if exc is not None or not isinstance(rep, dict) or rep.get("errorcode") != 0 \
+                or not isinstance(rep.get("state"), dict) \
+                or not isinstance(rep["state"].get("updating"), dict):
+            bad("state/failed", "%r %r" % (rep, exc))
         else:
             answered += 1
-    # ---- blockchainState
-    rep, exc = w.request({"command": "blockchainState", "version": 5})
-    if exc is not None or not isinstance(rep, dict) or rep.get("errorcode") != 0 \
-            or not isinstance(rep.get("state"), dict) \
-            or not isinstance(rep["state"].get("updating"), dict):
-        bad("state/failed", "%r %r" % (rep, exc))
-    else:
-        answered += 1
-        st = rep["state"]
-        up = st["updating"]
-        for name in ("best_block", "newest_valid_block", "ancestor_block", "ancestor_receipts_root"):
-            if st.get(name) != state[name].hex():
-                bad("state/hash", "%s=%s device holds %s" % (name, st.get(name), state[name].hex()))
-        for name in ("best_block", "newest_valid_block", "next_expected_block"):
-            if up.get(name) != state["updating." + name].hex():
-                bad("state/hash", "updating.%s=%s device holds %s" % (
-                    name, up.get(name), state["updating." + name].hex()))
-        if as_uint(up.get("total_difficulty")) != int.from_bytes(diff, "big"):
-            bad("state/difficulty", "total_difficulty=%r device holds 0x%s" % (
-                up.get("total_difficulty"), diff.hex()))
-        for i, name in enumerate(("in_progress", "already_validated", "found_best_block")):
-            if up.get(name) is not bool(flags[i]):
-                bad("state/flag", "%s=%r device flag bytes %s" % (name, up.get(name), flags.hex()))
-    # ---- blockchainParameters
-    rep, exc = w.request({"command": "blockchainParameters", "version": 5})
-    if exc is not None or not isinstance(rep, dict) or rep.get("errorcode") != 0 \
-            or not isinstance(rep.get("parameters"), dict):
-        bad("params/failed", "%r %r" % (rep, exc))
-    else:
-        answered += 1
-        pr = rep["parameters"]
-        if pr.get("checkpoint") != params["checkpoint"].hex():
-            bad("params/checkpoint", "%r" % (pr.get("checkpoint"),))
-        if as_uint(pr.get("minimum_difficulty")) != mind:
-            bad("params/min-difficulty", "%r device holds %d" % (pr.get("minimum_difficulty"), mind))
-        if pr.get("network") != NETWORKS[net]:
-            bad("params/network", "%r device network %d" % (pr.get("network"), net))
-    # ---- signerHeartbeat
-    ud = ch.bytes(16, "ud.signer")
-    rep, exc = w.request({"command": "signerHeartbeat", "udValue": ud.hex(), "version": 5})
-    h = hb["signer"]
-    if exc is not None or not isinstance(rep, dict) or rep.get("errorcode") != 0:
-        bad("shb/failed", "%r %r" % (rep, exc))
-    else:
-        answered += 1
-        wantmsg = (h["msg_prefix"] + h["msg_tail"] + ud).hex()
-        if rep.get("pubKey") != h["pubkey"].hex() or rep.get("message") != wantmsg \
-                or rep.get("tweak") != h["app_hash"].hex() \
-                or rep.get("signature") != {"r": sr, "s": ss}:
-            bad("shb/value", "reply %r" % (rep,))
+            st = rep["state"]
+            up = st["updating"]
+            for name in ("best_block", "newest_valid_block", "ancestor_block", "ancestor_receipts_root"):
+                if st.get(name) != state[name].hex():
+                    bad("state/hash", "%s=%s device holds %s" % (name, st.get(name), state[name].hex()))
+            for name in ("best_block", "newest_valid_block", "next_expected_block"):
+                if up.get(name) != state["updating." + name].hex():
+                    bad("state/hash", "updating.%s=%s device holds %s" % (
+                        name, up.get(name), state["updating." + name].hex()))
+            if as_uint(up.get("total_difficulty")) != int.from_bytes(diff, "big"):
+                bad("state/difficulty", "total_difficulty=%r device holds 0x%s" % (
+                    up.get("total_difficulty"), diff.hex()))
+            for i, name in enumerate(("in_progress", "already_validated", "found_best_block")):
+                if up.get(name) is not bool(flags[i]):
+                    bad("state/flag", "%s=%r device flag bytes %s" % (name, up.get(name), flags.hex()))
+        # ---- blockchainParameters
+        rep, exc = w.request({"command": "blockchainParameters", "version": 5})
+        if exc is not None or not isinstance(rep, dict) or rep.get("errorcode") != 0 \
+                or not isinstance(rep.get("parameters"), dict):
+            bad("params/failed", "%r %r" % (rep, exc))
+        else:
+            answered += 1
+            pr = rep["parameters"]
+            if pr.get("checkpoint") != params["checkpoint"].hex():
+                bad("params/checkpoint", "%r" % (pr.get("checkpoint"),))
+            if as_uint(pr.get("minimum_difficulty")) != mind:
+                bad("params/min-difficulty", "%r device holds %d" % (pr.get("minimum_difficulty"), mind))
+            if pr.get("network") != NETWORKS[net]:
+                bad("params/network", "%r device network %d" % (pr.get("network"), net))
+        # ---- signerHeartbeat
+        ud = ch.bytes(16, "ud.signer")
+        rep, exc = w.request({"command": "signerHeartbeat", "udValue": ud.hex(), "version": 5})
+        h = hb["signer"]
+        if exc is not None or not isinstance(rep, dict) or rep.get("errorcode") != 0:
+            bad("shb/failed", "%r %r" % (rep, exc))
+        else:
+            answered += 1
+            wantmsg = (h["msg_prefix"] + h["msg_tail"] + ud).hex()
+            if rep.get("pubKey") != h["pubkey"].hex() or rep.get("message") != wantmsg \
+                    or rep.get("tweak") != h["app_hash"].hex() \
+                    or rep.get("signature") != {"r": sr, "s": ss}:
+                bad("shb/value", "reply %r" % (rep,))
+
+    query_round(S)
+    # ---- history: the device's state changes during the manager's life
+    change = ch.weighted([(2, "none"), (2, "advanced"), (2, "swapped")], "state-change")
+    if change == "advanced":
+        # the blockchain state moved on (hashes, difficulty, flags); same device
+        S2 = draw_state(ch, ch.bytes(6, "devseed2"))
+        S = dict(S, state=S2["state"], diff=S2["diff"], flags=S2["flags"], dclass=S2["dclass"])
+        dev.state = S["state"]
+        query_round(S)
+    elif change == "swapped":
+        # the device is replaced / re-onboarded: other keys, parameters, heartbeat material; the
+        # open handle dies, one request gets the device error, the next one reconnects
+        seed2 = ch.bytes(6, "devseed2")
+        S = draw_state(ch, seed2)
+        dev.seed = seed2
+        dev.state, dev.params, dev.hb = S["state"], S["params"], S["hb"]
+        if w.link.open_handle is not None:
+            w.link.open_handle.opened = False
+        rep, exc = w.request({"command": "blockchainState", "version": 5})
+        if exc is not None or not isinstance(rep, dict) or rep.get("errorcode") != -905:
+            bad("swap/first-request", "after the device swap the first request answered %r %r"
+                % (rep, exc))
+        query_round(S)
+    hb, ur, us = S["hb"], S["ur"], S["us"]
+    dclass, flags, net, sshape, ushape = S["dclass"], S["flags"], S["net"], S["sshape"], S["ushape"]
     # ---- uiHeartbeat walk
     if walk == "start-in-uihb":
         dev.mode = L.MODE_UI_HEARTBEAT
@@ -230,10 +271,10 @@ def run_one(ch, cfg):
         bad("uihb/code", "errorcode %d (walk %s)" % (rep["errorcode"], walk))
     elif walk in ("benign", "start-in-uihb"):
         bad("uihb/spurious-error", "benign walk answered -905")
-    stt = (dclass, flags.hex(), net, sshape, ushape, walk)
+    stt = (dclass, flags.hex(), net, sshape, ushape, walk, change)
     return {"violations": viol, "digest": w.log.digest(), "state": stt,
             "nontrivial": answered >= 9, "faults": dict(w.link.stats.faults),
-            "probes": {"walk." + walk: 1}, "sim_s": w.clock.elapsed - 60.0,
+            "probes": {"walk." + walk: 1, "state_change." + change: 1}, "sim_s": w.clock.elapsed - 60.0,
             "sample": {"difficulty": diff.hex(), "flags": flags.hex(), "network": net,
                        "min_difficulty": mind, "walk": walk, "exit1": e1, "exit2": e2,
                        "uiHeartbeat_reply": rep, "end_mode": end_mode}}
